@@ -71,3 +71,38 @@ Example C40_nonvacuous :
   option_map (fun s => (st_vars s, n_ctor (st_led s), n_dtor (st_led s), okb (st_led s))) (run (init 3) ops)
     = Some ([None; None; None], 9, 9, true).
 Proof. split; vm_compute; reflexivity. Qed.
+
+(* ---- throwing payload constructors.  When T's constructor throws, OpResult (after /repo c75ee64) does what this desugaring into the
+   model's own operations says: a copy/move CONSTRUCTION from an engaged source, and a copy/move ASSIGNMENT of an engaged source to a
+   disengaged target, change nothing (no object was constructed; the source keeps its value); an emplace destroys the held value and
+   leaves the variable disengaged, which is exactly ~OpResult followed by OpResult().  The correspondence (harness ops F G f g e, real
+   exceptions) checks the implementation against this desugaring; every theorem above then covers programs with such faults. *)
+Inductive fop := FOk (o : op) | FCtorThrow (i j : nat) | FAssignThrow (i j : nat) | FEmplaceThrow (i : nat).
+Definition desugar (f : fop) : list op :=
+  match f with
+  | FOk o => [o]
+  | FCtorThrow _ _ | FAssignThrow _ _ => []
+  | FEmplaceThrow i => [ODestroy i; ODefault i]
+  end.
+Definition frun (s : state) (fops : list fop) : option state := run s (flat_map desugar fops).
+
+Theorem C40_faults_balanced : forall nv fops s, frun (init nv) fops = Some s ->
+  ok (st_led s) /\
+  (forall i t, vget (st_vars s) i = Some (Some t) -> lget (st_led s) (slot i) = Alive).
+Proof.
+  intros nv fops s H. destruct (C40_opresult_balanced nv (flat_map desugar fops) s H) as (H1 & H2 & _). split; [exact H1|exact H2].
+Qed.
+Print Assumptions C40_faults_balanced.
+
+Theorem C40_faults_refine_optional : forall nv fops s, frun (init nv) fops = Some s ->
+  exists sp, spec_run (repeat None nv) (flat_map desugar fops) = Some sp /\ vars_rel (st_vars s) sp = true.
+Proof. intros nv fops s H. exact (C40_refines_optional nv (flat_map desugar fops) s H). Qed.
+Print Assumptions C40_faults_refine_optional.
+
+(* the throwing emplace of the regression witness: value 5 destroyed exactly once, variable disengaged, nothing live *)
+Example C40_faults_nonvacuous :
+  match frun (init 1) [FOk (OValueMove 0 5); FEmplaceThrow 0] with
+  | Some s => st_vars s = [Some None] /\ live_count (st_led s) = 0 /\ l_errs (st_led s) = []
+  | None => False
+  end.
+Proof. vm_compute. repeat split; reflexivity. Qed.
